@@ -50,12 +50,23 @@ def parseDocs : Nat → Nat → List String → Option (List (List INode) × Nat
     let (ds, n, rest') ← parseDocs k lab.2 rest
     pure (lab.1 :: ds, n, rest')
 
+/-- `-` (DeepCopy) | `w:<hex>,<hex>…` (WhitelistTagFilter) | `b:<hex>,…` (BlacklistTagFilter; `b:` = no tag) -/
+def parseFilter (s : String) : Option (Option (Bool × List Str)) :=
+  if s == "-" then some none
+  else
+    let white := s.startsWith "w:"
+    if !(white || s.startsWith "b:") then none else
+    let body := (s.drop 2).toString
+    let toks := if body.isEmpty then [] else body.splitOn ","
+    (toks.mapM fromHex).map fun tags => some (white, tags)
+
 def parseOps : List String → Option (List CopyOp)
   | [] => some []
-  | a :: b :: c :: rest => do
+  | a :: b :: c :: f :: rest => do
     let a ← a.toNat?; let b ← b.toNat?; let c ← c.toNat?
+    let f ← parseFilter f
     let ops ← parseOps rest
-    pure (⟨a, b, c⟩ :: ops)
+    pure ({ src := a, node := b, dst := c, filter := f } :: ops)
   | _ => none
 
 def showNats (l : List Nat) : String :=
@@ -66,7 +77,7 @@ def showEvent (e : Option CopyEvent) : String :=
   | none => "[noop]"
   | some e =>
     let c := e.result.copy
-    s!"[ok first={e.start} n={c.ids.length} fresh={b2s (c.ids.all fun i => decide (e.start ≤ i))} t={showNode c.erase} fam={showNats (roleFamilies e.ctx (e.start + c.ids.length) e.source)} doc={showNats ((docBearing c).map fun _ => e.op.dst)} added={e.result.famAdds.length}]"
+    s!"[ok first={e.start} n={c.ids.length} fresh={b2s (c.ids.all fun i => decide (e.start ≤ i))} t={showNode c.erase} fam={showNats (match e.op.filter with | none => roleFamilies e.ctx (e.start + c.ids.length) e.source | some _ => (roleIds c).map fun _ => e.start + c.ids.length)} doc={showNats ((docBearing c).map fun _ => e.op.dst)} added={e.result.famAdds.length}]"
 
 def distinctPtrs (recs : List INode) : List Str :=
   (recs.map (·.ptr)).foldl (fun acc p => if p.isEmpty || acc.contains p then acc else acc ++ [p]) []
@@ -182,7 +193,8 @@ def handleEqual (cmd : String) (rest : List String) : Option String :=
       | _, _ => some "bad-op"
     | _ => some "bad-op"
   | "copydoc" =>
-    -- copydoc <ndocs> (<forest>)^ndocs (<src> <object> <dst>)* : a sequence of DeepCopy calls
+    -- copydoc <ndocs> (<forest>)^ndocs (<src> <object> <dst> <filter>)* : a sequence of DeepCopy
+    --   (filter `-`) and Filter (`w:tags` / `b:tags`) calls
     --   between documents; answers what every call returned and the documents afterwards
     match rest with
     | k :: more =>
